@@ -19,6 +19,21 @@ type tree interface {
 	walkIterProgrammably(*Node, *config) iter.Seq2[*WalkerNode, error]
 }
 
+// checkedWriter turns a short write that reports no error (a writer breaking the io.Writer
+// contract) into io.ErrShortWrite, as bufio.Writer does, so that lost output is never
+// reported as success.
+type checkedWriter struct {
+	w io.Writer
+}
+
+func (cw checkedWriter) Write(p []byte) (int, error) {
+	n, err := cw.w.Write(p)
+	if err == nil && n < len(p) {
+		err = io.ErrShortWrite
+	}
+	return n, err
+}
+
 func initializeTree(cfg *config) tree {
 	if cfg.massive {
 		return newTreePipeline(cfg)
